@@ -36,6 +36,8 @@ def run(R, ctx):
     R.rule('R16.9', 'stored path = path of the opened file after every rotation (shared with R01.4)')
     import c01 as _c01
     _c01.swap_rules(Relabel(R, {'R01.4': 'R16.9'}), ctx)
+    import c14 as _c14
+    _c14.suffix_agreement(R, ctx, rule='R16.8')
     family_predicate_proxy(R, ctx, 'R16.8', 'existing_log_files lists exactly the family: the predicate of the listing agrees with the naming (shared with R14.2)')
 
 def purity(R, ctx):
